@@ -284,7 +284,16 @@ impl MovingAverage for SMM {}
 
 impl Peekable<<Self as Method>::Output> for SMM {
 	fn peek(&self) -> <Self as Method>::Output {
-		(get(&self.slice, self.half as usize) + get(&self.slice, self.half_m1 as usize)) * 0.5
+		let a = get(&self.slice, self.half as usize);
+		let b = get(&self.slice, self.half_m1 as usize);
+		let sum = a + b;
+
+		// two finite values above half of the `ValueType` range overflow when added: halve them first
+		if sum.is_finite() {
+			sum * 0.5
+		} else {
+			a * 0.5 + b * 0.5
+		}
 	}
 }
 
